@@ -65,6 +65,7 @@ type Engine struct {
 	typeCache  map[string]types.Type
 	AssertLabels map[string]*AssertStat
 	ForkSites map[string]int
+	Outside   map[string]int // paths cut because they leave the modelled fragment
 	hardConds map[int]bool // conditions of deliberate case splits (choices, concretisations): never merged away
 }
 
@@ -119,7 +120,7 @@ func NewEngine(prog *ssa.Program, solverKind string, timeoutMs int) (*Engine, er
 	e := &Engine{Prog: prog, TT: tt, Solver: s, Intrinsics: map[string]Intrinsic{}, Redirects: map[string]*ssa.Function{},
 		NativeGlob: map[string]interface{}{}, Reach: map[string]int{}, inputSeen: map[string]bool{},
 		Encoded: map[string]bool{}, StubsUsed: map[string]int{}, pdomCache: map[*ssa.Function]map[*ssa.BasicBlock]*ssa.BasicBlock{},
-		rpoCache: map[*ssa.Function]map[*ssa.BasicBlock]int{}, hardConds: map[int]bool{}, MaxSteps: 50_000_000, MaxVisits: 20000, Ctx: map[string]interface{}{}, InterpPkgs: map[string]bool{},
+		rpoCache: map[*ssa.Function]map[*ssa.BasicBlock]int{}, hardConds: map[int]bool{}, Outside: map[string]int{}, MaxSteps: 50_000_000, MaxVisits: 20000, Ctx: map[string]interface{}{}, InterpPkgs: map[string]bool{},
 		nativeMemo: map[uintptr]int{}, typeCache: map[string]types.Type{}, AssertLabels: map[string]*AssertStat{}}
 	registerIntrinsics(e)
 	return e, nil
